@@ -48,7 +48,7 @@ const techSX = "symbolic execution of the real code's go/ssa (GoSX) with SMT (z3
 var properties = map[string]propSpec{
 	"C01": {
 		Level: "model_checking", Technique: techSX + "; differential against a reference interpreter (refEval) over an explicit model tree built from the same symbolic leaves",
-		Bounds:  [2]string{"datum {x: V, y: scalar}: V over 21 shapes (10 scalar kinds incl. named, pointer, nil pointer, json.Number, nil; []interface{} of 0..2 scalars, []int8, [2]string, map[string]interface{} over 2 keys, map[string]int8, tagged struct (renamed/hidden/unexported/untagged fields, behind a pointer or not), []*int8 with nil, []byte, named-string-keyed map, list of maps, []struct), leaves symbolic; quick: a seed-selected sixth of the (shape, operator) pairs; 15 selector forms x 8 operators x 6 literals (quick: 8 x 8 x 3), with and without an unknown value; 13 composite templates (connectives, quantifiers in all binding modes, nested, aliases, JSON pointers); three Go representations of one document", "all 21 shapes"},
+		Bounds:  [2]string{"datum {x: V, y: scalar}: V over 21 shapes (10 scalar kinds incl. named, pointer, nil pointer, json.Number, nil; []interface{} of 0..2 scalars, []int8, [2]string, map[string]interface{} over 2 keys, map[string]int8, tagged struct (renamed/hidden/unexported/untagged fields, behind a pointer or not), []*int8 with nil, []byte, named-string-keyed map, list of maps, []struct), leaves symbolic; quick: a seed-selected twelfth of the (shape, operator) pairs; 15 selector forms x 8 operators x 6 literals (quick: 8 x 8 x 3), with and without an unknown value; 13 composite templates (connectives, quantifiers in all binding modes, nested, aliases, JSON pointers); three Go representations of one document", "all 21 shapes"},
 		Outside: "what refEval calls unspecified (assumed away): non-canonical list indices, NaN; datum shapes beyond the 21; more than one container level below x; map key types other than string / named string",
 	},
 	"C20": {
@@ -77,19 +77,19 @@ var properties = map[string]propSpec{
 	},
 	"C15": {
 		Level: "model_checking", Technique: techSX + "; differential against a hand-written ordered-choice recogniser/AST builder executed on the same symbolic bytes",
-		Bounds:  [2]string{"every byte string of length <= 3; 110 corpus strings (accepting and rejecting, every language-boundary fact of DESIGN.md Appendix B) concretely; for a seed-selected quarter of the corpus every position with one byte replaced by / one byte inserted as an unconstrained byte; token templates with symbolic token contents", "every byte string of length <= 4; windows over the whole corpus"},
+		Bounds:  [2]string{"every byte string of length <= 3; 110 corpus strings (accepting and rejecting, every language-boundary fact of DESIGN.md Appendix B) concretely; for a seed-selected tenth of the corpus every position with one byte replaced by / one byte inserted as an unconstrained byte; token templates with symbolic token contents", "every byte string of length <= 4; windows over the whole corpus"},
 		Outside: "inputs longer than the symbolic bound that differ from every corpus string/template in more than the symbolic positions",
 		StepBudget: 600_000_000,
 	},
 	"C10": {
 		Level: "model_checking", Technique: techSX + "; the PEG engine, rule table, actions, utf8 decoding and strconv.Unquote run on symbolic bytes",
-		Bounds:  [2]string{"every byte string of length <= 3 (2^24+ inputs); 59 corpus strings (every rule and error production) concretely; for a seed-selected third of the corpus every position with one byte replaced by, or one byte inserted as, an unconstrained byte", "every byte string of length <= 4 (2^32+); windows over the whole corpus"},
+		Bounds:  [2]string{"every byte string of length <= 3 (2^24+ inputs); 59 corpus strings (every rule and error production) concretely; for a seed-selected eighth of the corpus every position with one byte replaced by, or one byte inserted as, an unconstrained byte", "every byte string of length <= 4 (2^32+); windows over the whole corpus"},
 		Outside: "inputs longer than the symbolic bound that differ from every corpus string in more than one byte",
 		StepBudget: 600_000_000,
 	},
 	"C11": {
 		Level: "model_checking", Technique: techSX + "; the budget is a symbolic uint64 case-split by the parser's own comparison",
-		Bounds:  [2]string{"13 inputs (valid, invalid with each error production, nesting <= 2) x budgets n in [0,24] U [N-24,N+24] U [2^62,2^64) (N = unlimited step count, measured on the path); nesting depth 6..8 under budgets 50..2000; CreateEvaluator/CreateFilter hand-over on 6 inputs", "windows of 96 around 0 and N"},
+		Bounds:  [2]string{"13 inputs (valid, invalid with each error production, nesting <= 2) x budgets n in [0,10] U [N-10,N+10] U [2^62,2^64) (N = unlimited step count, measured on the path); nesting depth 6..8 under budgets 50..2000; CreateEvaluator/CreateFilter hand-over on 6 inputs", "windows of 96 around 0 and N"},
 		Outside: "budgets strictly between the windows (the comb of all N thresholds is quadratic under re-execution); inputs outside the corpus",
 		StepBudget: 600_000_000,
 	},
@@ -151,7 +151,7 @@ var properties = map[string]propSpec{
 	},
 	"C09": {
 		Level: "model_checking", Technique: techSX,
-		Bounds:  [2]string{"8 operators x 44 datum shapes (every reflect.Kind incl. Invalid, nil/odd elements in containers) x literal (every string <= 2 bytes + 5 fixed spellings); selector direct, through quantifier alias, map value binding, under not/or; datum root", "same"},
+		Bounds:  [2]string{"8 operators x 44 datum shapes (quick: a seed-selected half / third of the (shape, operator) pairs per harness) (every reflect.Kind incl. Invalid, nil/odd elements in containers) x literal (every string <= 2 bytes + 5 fixed spellings); selector direct, through quantifier alias, map value binding, under not/or; datum root", "same"},
 		Outside: "datum shapes other than the 44 listed; literals longer than 2 symbolic bytes",
 	},
 	"C02": {
